@@ -12,7 +12,9 @@ logs a step afterwards; nothing is alive when the program ends.
 
 from __future__ import annotations
 
-from .. import treecheck
+import itertools
+
+from .. import treecheck, treefam
 
 PROPERTY = "C01"
 LEVEL = "exploration"
@@ -34,7 +36,7 @@ SHARD_TIMEOUT = {"quick": 300, "thorough": 1500}
 
 
 def all_cases(tier: str, seed: int):  # noqa: ANN201
-    yield from treecheck.cases("c01", tier, seed, 4000, 60000)
+    yield from treecheck.cases("c01", tier, seed, 4000, 60000, extra=lambda: itertools.chain(treefam.empty_exit_spawn(), treefam.aexit_cancel_sweep()))
 
 
 def shards(tier: str, seed: int) -> list[dict]:
